@@ -254,5 +254,31 @@ def run(ctx: Ctx) -> None:
 
     a, b = strip_comments(lines), strip_comments([pai.as_sstr(x) for x in base[0][2]])
     ctx.check(a == b, "K5", "LAYER with comments vs without", locp, f"{len(b)} lines", f"with comments removed {a} != comment-free output {b}")
+    # K4 (history): the same commented dictionary printed again - nothing accumulates in its comment tables
+    def snap_comments(d, acc=None):
+        acc = [] if acc is None else acc
+        if isinstance(d, dict):
+            for k, v in d.items():
+                if k == "__comments__" and isinstance(v, dict):
+                    acc.append([(ck, [pai.as_sstr(x).describe() if isinstance(x, (str, SStr)) else repr(x) for x in (cv if isinstance(cv, list) else [cv])]) for ck, cv in v.items()])
+                else:
+                    snap_comments(v, acc)
+        elif isinstance(d, list):
+            for x in d:
+                snap_comments(x, acc)
+        return acc
+
+    for ind in (2, 0):
+        shared = with_comments()
+        before = snap_comments(shared)
+        o2 = lambda ind=ind: L.sym_options(end_comment=False, indent=ind, spacer=" ", newlinechar="\n")
+        first = L.format_lines(lambda: shared, o2, level=0, fork=False)
+        after = snap_comments(shared)
+        second = L.format_lines(lambda: shared, o2, level=0, fork=False)
+        if len(first) != 1 or len(second) != 1 or first[0][1] != "return":
+            raise AnalysisError(f"_format with comments not evaluable at indent {ind}")
+        same = second[0][1] == "return" and [pai.as_sstr(x) for x in first[0][2]] == [pai.as_sstr(x) for x in second[0][2]]
+        ctx.check(after == before, "K4", f"printing leaves the comment tables as they were (indent={ind})", locp, "", f"after one dumps() the __comments__ tables hold {after} instead of {before}: what was printed is stored back into the dictionary")
+        ctx.check(same, "K4", f"a second print of the same dictionary writes the same lines (indent={ind})", locp, "", f"the second print of the same commented dictionary differs from the first ({len(first[0][2])} vs {len(second[0][2]) if second[0][1] == 'return' else second[0][2]} lines): comments are written twice")
     # comments start with the source's own marker: the printer adds none
     ctx.check(all(("# <COMMENT" in t) or ("COMMENT" not in t) for t in texts), "K5", "the printer adds no marker of its own", locp, "", "")
